@@ -7,7 +7,11 @@ admissible spelling (dotted string, Path with T chunks, pure T, S-rooted), ignor
 `computed`: the same paths with T[...] arguments that are computed over the target (T expression, Spec, Val, scope
 variable) in the final and in middle positions.  `refuse`: a catalogue of present attributes whose deletion Python refuses
 with AttributeError (frozen dataclass, property without deleter, namedtuple field, read-only builtin attribute, sealing
-__delattr__) and absent attributes of the same objects, in T.attr, Path and string addressing.  `refuseitem`: the same for
+__delattr__) and absent attributes of the same objects, in T.attr, Path and string addressing; plus (F100) names that can
+be read through the object and are no elements of it - a value / method of the class or of a base class only, an answer of a
+__getattr__ fallback, an attribute an auto-creating __getattr__ would make when read, an unset slot: plain `del` raises
+AttributeError as for any unknown name, so they are missing (PathDeleteError / ignored) and asking must not create them.
+`refuseitem`: the same for
 item parents - list / dict subclasses and Glommer-registered sequence- and mapping-likes whose __delitem__ refuses every
 deletion or that of pinned elements with a non-LookupError, addressed by the text of the index, the index, T[...].
 
@@ -35,6 +39,9 @@ ASSUMPTIONS = [
     'a present element (plain Python reads it) whose del raises is never reported as deleted or as missing: some exception '
     'also under ignore_missing=True, whatever class the refusal has (only LookupError from the deletion itself is unconstrained)',
     'a computed T[...] argument denotes the key it evaluates to over the target, in the final step as in any other',
+    'an attribute is an element of an object iff the instance stores it (its __dict__) or a data descriptor of its class (property, '
+    'slot, namedtuple field, C-level member) reads for it; a value or method only the class has, what __getattr__ would answer or '
+    'create, and an unset slot are not: del raises AttributeError for them as for an unknown name = a missing final attribute',
 ]
 
 
@@ -366,6 +373,86 @@ class SlotsXY(object):
 
 NTxy = collections.namedtuple('NTxy', 'x y')
 
+
+# Attributes that can be READ through the object and are no elements OF the object (F100): a value or a method that only
+# the class (or a base class) has, an unset __slots__ member, an answer that a __getattr__ fallback computes, an attribute
+# that an auto-creating __getattr__ would make on the first read.  Plain Python: `del obj.name` raises AttributeError for
+# each of them exactly as for a name nobody knows ("'Config' object has no attribute 'debug'") - there is nothing on the
+# object to delete and nothing refuses: a missing final attribute (PathDeleteError; ignored under ignore_missing=True),
+# and - frame condition - asking must not create it.
+
+class AutoNode(object):
+    """auto-vivifying attributes: reading a name that is not there CREATES it (tree builders, mock objects)"""
+    def __init__(self, **kw):
+        self.__dict__.update(kw)
+
+    def __getattr__(self, name):
+        if name.startswith('__'):
+            raise AttributeError(name)
+        v = self.__dict__[name] = AutoNode()
+        return v
+
+    def __repr__(self):
+        return 'AutoNode(%s)' % ', '.join('%s=%r' % kv for kv in sorted(self.__dict__.items()))
+
+
+class Config(object):
+    """debug, limit: values of the CLASS (defaults); describe / make: methods; y: the instance's own attribute"""
+    debug = False
+    limit = 3
+
+    def __init__(self):
+        self.y = 2
+
+    def describe(self):
+        return 'config'
+
+    @classmethod
+    def make(cls):
+        return cls()
+
+    def __repr__(self):
+        return '%s(%s)' % (type(self).__name__, ', '.join('%s=%r' % kv for kv in sorted(self.__dict__.items())))
+
+
+class SubConfig(Config):
+    """everything but y is inherited from the base class"""
+
+
+class Shadowing(Config):
+    """debug: an instance attribute in front of the class value (del removes it, the class value shows again);
+    limit: only the class has it"""
+    def __init__(self):
+        Config.__init__(self)
+        self.debug = True
+
+
+class Fallback(object):
+    """__getattr__ answers every public name with a computed value and stores nothing; y is an own attribute"""
+    def __init__(self):
+        self.y = 2
+
+    def __getattr__(self, name):
+        if name.startswith('_'):
+            raise AttributeError(name)
+        return 'default-' + name
+
+    def __repr__(self):
+        return 'Fallback(%s)' % ', '.join('%s=%r' % kv for kv in sorted(self.__dict__.items()))
+
+
+class SlotsConst(object):
+    """no instance __dict__: x a set slot, u an unset one, K a constant of the class"""
+    __slots__ = ('x', 'u')
+    K = 5
+
+    def __init__(self):
+        self.x = 1
+
+    def __repr__(self):
+        return 'SlotsConst(%s)' % ', '.join(n for n in self.__slots__ if hasattr(self, n))
+
+
 # tag -> (constructor, attribute names to draw from)
 HOLDERS = {
     'frozen': (Frozen, ['x', 'y', 'zz']),
@@ -379,13 +466,58 @@ HOLDERS = {
     'slice': (lambda: slice(1, 2), ['start', 'stop', 'zz']),
     'slots': (SlotsXY, ['x', 'y', 'zz']),
     'plain': (lambda: tg.Obj(x=1, y=2), ['x', 'y', 'zz']),
+    # readable and no element of the object (F100)
+    'autoviv': (lambda: AutoNode(kept=1), ['x', 'x', 'zz', 'kept']),
+    'classval': (Config, ['debug', 'debug', 'limit', 'describe', 'describe', 'make', 'y', 'zz']),
+    'inherited': (SubConfig, ['debug', 'limit', 'describe', 'y']),
+    'shadowing': (Shadowing, ['debug', 'limit', 'zz']),
+    'fallback': (Fallback, ['x', 'x', 'zz', 'y']),
+    'slotsconst': (SlotsConst, ['x', 'u', 'u', 'K', 'K', 'zz']),
 }
-OBSERVED = ['x', 'y', 'zz', '_x', 'real', 'imag', 'start', 'stop']
+# the classes of names that are no elements of the holder, as DECLARED (the check computes the answer with _own_attr and
+# plain getattr / delattr and fails as a harness error where the two disagree); every other name is 'own' or 'absent'
+NOT_OWN = {
+    ('autoviv', 'x'): 'autoviv', ('autoviv', 'zz'): 'autoviv',
+    ('classval', 'debug'): 'classvalue', ('classval', 'limit'): 'classvalue',
+    ('classval', 'describe'): 'method', ('classval', 'make'): 'method',
+    ('inherited', 'debug'): 'inherited', ('inherited', 'limit'): 'inherited', ('inherited', 'describe'): 'inherited',
+    ('shadowing', 'limit'): 'classvalue',
+    ('fallback', 'x'): 'fallback', ('fallback', 'zz'): 'fallback',
+    ('slotsconst', 'u'): 'unsetslot', ('slotsconst', 'K'): 'classvalue', ('slots', 'y'): 'unsetslot',
+}
+READABLE_NOT_OWN = ('autoviv', 'classvalue', 'method', 'inherited', 'fallback')
+OLD_HOLDERS = ['complex', 'float', 'frozen', 'ntuple', 'plain', 'range', 'roprop', 'sealed', 'setteronly', 'slice', 'slots']
+NEW_HOLDERS = ['autoviv', 'autoviv', 'autoviv', 'classval', 'classval', 'classval', 'inherited', 'inherited', 'shadowing',
+               'fallback', 'fallback', 'slotsconst']
+OBSERVED = ['x', 'y', 'zz', '_x', 'real', 'imag', 'start', 'stop', 'kept', 'debug', 'limit', 'describe', 'make', 'u', 'K']
 ADDRS = ['str', 'path', 't', 'path-t', 'mixed-t', 'mixed-p']
 
 
+def _own_attr(obj, name):
+    """Python's data model (object.__delattr__ / "Invoking descriptors"): what `del obj.name` can act on is a data
+    descriptor of the class (a property, a slot, a namedtuple field, a C-level member: it answers for the instance, and
+    the attribute is there iff it can be read) or, failing that, an entry of the instance's own __dict__.  Anything else
+    the class has (plain values, functions, classmethods: no data descriptors) and whatever __getattr__ would answer is
+    not the instance's.  Never runs __getattr__."""
+    for klass in type(obj).__mro__:
+        if name in vars(klass):
+            v = vars(klass)[name]
+            if hasattr(type(v), '__set__') or hasattr(type(v), '__delete__'):
+                try:
+                    v.__get__(obj, type(obj))
+                    return True
+                except AttributeError:
+                    return False
+            break
+    try:
+        return name in object.__getattribute__(obj, '__dict__')
+    except AttributeError:
+        return False
+
+
 def gen_refuse(draw):
-    holder = draw(st.sampled_from(sorted(HOLDERS)))
+    # 3 of 5 cases from the catalogue of refusing holders, 2 of 5 from the holders with readable non-elements (F100)
+    holder = draw(st.sampled_from(NEW_HOLDERS)) if draw(st.integers(0, 4)) >= 3 else draw(st.sampled_from(OLD_HOLDERS))
     addrs = ADDRS if holder != 'ntuple' else ['t', 'path-t', 'mixed-t']   # a tuple has no 'delete' handler (by design)
     return {'holder': holder, 'attr': draw(st.sampled_from(HOLDERS[holder][1])),
             'wrap': draw(st.sampled_from(['root', 'dict', 'list', 'obj'])),
@@ -406,10 +538,16 @@ def _wrap(recipe):
 
 
 def _observe(target, holder):
+    """what the holder has, looked at without running a __getattr__ of the holder (object.__getattribute__ does not fall
+    back to it): the instance's own __dict__ as it is, and what the observed names read as"""
     out = []
+    try:
+        out.append(('__dict__', sorted((k, repr(v)) for k, v in object.__getattribute__(holder, '__dict__').items())))
+    except AttributeError:
+        pass
     for n in OBSERVED:
         try:
-            out.append((n, repr(getattr(holder, n))))
+            out.append((n, repr(object.__getattribute__(holder, n))))
         except AttributeError:
             pass
     return (tg.snapshot(target), out)
@@ -420,16 +558,28 @@ def check_refuse(recipe, ctx):
     name, ign, addr = recipe['attr'], recipe['ignore_missing'], recipe['addr']
     # reference: plain Python on an independently built holder
     rt, rh, _ = _wrap(recipe)
-    try:
-        getattr(rh, name)
-        present = True
-    except AttributeError:
-        present = False
+    present = _own_attr(rh, name)
+    ref_before = _observe(rt, rh)[1]
     try:
         delattr(rh, name)
         refusal = None
     except Exception as e:
         refusal = e
+    # the model's own consistency: the declared class of the name, what a plain read says (on a holder of its own: the
+    # read may create the attribute), and what del says
+    declared = NOT_OWN.get((recipe['holder'], name))
+    try:
+        getattr(_wrap(recipe)[1], name)
+        readable = True
+    except AttributeError:
+        readable = False
+    if (declared is not None and present) or (present and not readable) or \
+            (readable and not present and declared not in READABLE_NOT_OWN) or \
+            (not readable and declared in READABLE_NOT_OWN):
+        raise HarnessBug('holder out of its own model (declared %r, own=%r, readable=%r): %r' % (declared, present, readable, recipe))
+    if not present and (not isinstance(refusal, AttributeError) or _observe(rt, rh)[1] != ref_before):
+        raise HarnessBug('del of a name that is no attribute of the object: expected AttributeError and no effect, got %r: %r'
+                         % (refusal, recipe))
     if refusal is None and not present:
         raise HarnessBug('del of an absent attribute succeeded: %r' % (recipe,))
     exp = 'ok' if refusal is None else ('refused' if present else 'missing')
@@ -447,6 +597,14 @@ def check_refuse(recipe, ctx):
               'final-attr' if addr in ('t', 'path-t', 'mixed-t') else 'final-P')
     if ign:
         ctx.label('ignore-' + exp)
+    if declared is not None:
+        ctx.label('notown-' + declared, ('ignore-notown-' if ign else 'strict-notown-') + declared)
+        ctx.label('ignore-notown' if ign else 'strict-notown')
+        what = {'autoviv': 'not there (its __getattr__ would create it on a read)', 'classvalue': 'a value of the class only',
+                'method': 'a method of the class', 'inherited': 'inherited from a base class only',
+                'fallback': 'an answer of the __getattr__ fallback only', 'unsetslot': 'an unset slot'}[declared]
+    else:
+        what = 'absent'
     where = 'delete(%r, %r, ignore_missing=%r)' % (target, path, ign)
     before = _observe(target, h)
     try:
@@ -475,18 +633,20 @@ def check_refuse(recipe, ctx):
         # present and del raises: an error in every addressing style, with and without ignore_missing (class not constrained)
         if err is None:
             raise Mismatch('refused-delete-reported-as-success' if ign else 'missing-error',
-                           '%s: the attribute is present (getattr reads it) and del raises %r; glom returned normally and '
+                           '%s: the attribute is present (the object has it) and del raises %r; glom returned normally and '
                            'the attribute is still there' % (where, refusal))
     elif ign:
         if err is not None:
-            raise Mismatch('ignore-missing-not-honoured', '%s: the attribute is absent (getattr and del both raise: %r), '
-                           'ignore_missing=True, glom raised %s: %r' % (where, refusal, type(err).__name__, getattr(err, 'args', err)))
+            raise Mismatch('ignore-missing-not-honoured', '%s: the attribute is %s: the object has nothing to delete (plain '
+                           'del raises %r), ignore_missing=True, glom raised %s: %r'
+                           % (where, what, refusal, type(err).__name__, getattr(err, 'args', err)))
         if res is not target:
             raise Mismatch('wrong-return', '%s: must return the target' % where)
     else:
         if not isinstance(err, PathDeleteError):
             raise Mismatch('wrong-error-class' if err is not None else 'missing-error',
-                           '%s: the attribute is absent: expected PathDeleteError, got %r' % (where, err))
+                           '%s: the attribute is %s (plain del raises %r): expected PathDeleteError, got %r'
+                           % (where, what, refusal, err))
     ctx.outcome([exp, recipe['holder'], name, type(err).__name__ if err is not None else None])
 
 
@@ -933,11 +1093,16 @@ SUBS = [
         floors={'computed-final': 0.23, 'computed-final-ok': 0.12, 'computed-final-err': 0.1, 'computed-middle': 0.25,
                 'keyform-t': 0.24, 'keyform-spec-str': 0.07, 'keyform-spec-t': 0.04, 'keyform-val': 0.045, 'keyform-scope': 0.05,
                 'spelling-t': 0.2}),
-    Sub('refuse', check_refuse, gen=gen_refuse, quick=600, thorough=3000,
-        floors={'ignore-refused': 0.19, 'ignore-missing': 0.1, 'exp-ok': 0.04, 'final-attr': 0.24, 'final-P': 0.24,
-                'holder-frozen': 0.03, 'holder-roprop': 0.03, 'holder-setteronly': 0.03, 'holder-sealed': 0.03,
-                'holder-ntuple': 0.03, 'holder-float': 0.03, 'holder-complex': 0.03, 'holder-range': 0.03,
-                'holder-slice': 0.03, 'addr-str': 0.07, 'addr-path': 0.06, 'addr-t': 0.07}),
+    Sub('refuse', check_refuse, gen=gen_refuse, quick=1200, thorough=6000,
+        # (2 of 5 cases come from the F100 holders since then: the shares of the older classes are 0.6 of what they were, at
+        # twice the case count)
+        floors={'ignore-refused': 0.11, 'ignore-missing': 0.15, 'exp-ok': 0.04, 'final-attr': 0.24, 'final-P': 0.24,
+                'holder-frozen': 0.016, 'holder-roprop': 0.016, 'holder-setteronly': 0.016, 'holder-sealed': 0.016,
+                'holder-ntuple': 0.016, 'holder-float': 0.016, 'holder-complex': 0.016, 'holder-range': 0.016,
+                'holder-slice': 0.016, 'addr-str': 0.07, 'addr-path': 0.06, 'addr-t': 0.07,
+                'ignore-notown': 0.098, 'ignore-notown-autoviv': 0.026, 'ignore-notown-classvalue': 0.019,
+                'ignore-notown-fallback': 0.016, 'ignore-notown-inherited': 0.015, 'ignore-notown-method': 0.0095,
+                'notown-unsetslot': 0.012, 'strict-notown': 0.045, 'strict-notown-autoviv': 0.009}),
     Sub('refuseitem', check_refuseitem, gen=gen_refuseitem, quick=800, thorough=3000,
         floors={'ignore-refused-final-text-index': 0.06, 'ignore-refused-final-P': 0.08, 'ignore-refused-final-T': 0.03,
                 'ignore-refused-seq': 0.1, 'ignore-refused-map': 0.07, 'negative-text-index': 0.04,
